@@ -5,14 +5,22 @@ CFG = {
                   "six STUN attribute codecs: for EVERY well-formed candidate (explicit decidable WF) parse(marshal c) succeeds, has the same ten "
                   "getters and is Equal and DeepEqual both ways; every candidate a constructor builds from in-range arguments is WF; whatever the "
                   "parser accepts satisfies WF's core and, if representable, re-marshals to an Equal candidate (the unrestricted statement is "
-                  "REFUTED by two machine-checked witnesses, see known findings C16-N3); Equal and DeepEqual are reflexive and symmetric and "
-                  "DeepEqual implies Equal for ALL candidates (extensionsEqual = multiset equality); every attribute codec decodes what it encoded "
+                  "REFUTED by two machine-checked witnesses, see known findings C16-N3); Equal and DeepEqual are reflexive, symmetric and TRANSITIVE and "
+                  "DeepEqual implies Equal for ALL candidates and every behaviour of netip (extensionsEqual = multiset equality; sameAddressLiteral "
+                  "= 'identical strings or both IP literals with one canonicalAddr' is proved an equivalence relation although written asymmetrically); "
+                  "Equal is characterised field by field (C16_equal_iff) and two literals of one canonical IP in the same constructor call give "
+                  "Equal and DeepEqual candidates (C16_equal_literal_forms), both under the explicit law EnvLaw; every attribute codec decodes what it encoded "
                   "and rejects exactly the wrong sizes. No bound on lengths of strings or extension lists. The model is tied to the code by "
                   "differential correspondence (C tie) on a grammar-based + mutation stream; a test table cannot cover the unbounded input space.",
     "level_note": "Tie is C only (no translator tie: the codecs index byte slices, outside the gotolean subset). Trusted: Lean kernel "
                   "(axioms propext/Classical.choice/Quot.sound), the harness and driver, the generators (what they do not generate is not seen). "
-                  "Uninterpreted in every theorem (quantified as `Env`): netip.ParseAddr+Unmap().Is4() and CRC-32; the driver's executable "
-                  "mirrors of both are sampled against Go on every run. pion/stun TLV framing/padding is exercised (message written and decoded) but "
+                  "Uninterpreted in every theorem (quantified as `Env`): netip.ParseAddr+Unmap().Is4() (cls), canonicalAddr(netip.ParseAddr(s)) (canon) "
+                  "and CRC-32; the driver's executable mirrors of all three are sampled against Go on every run (`cand cls`, `cand canon`, `cand crc` "
+                  "and implicitly every rt/parse/eq/eq3 line). ONE Env law is a hypothesis, of C16_equal_iff and C16_equal_literal_forms only: EnvLaw "
+                  "(cls s = class of canon s: invalid iff no canonical form, v4 iff the canonical address is IPv4); the assumption monitor "
+                  "envLawViolation checks it, and that the IP addrEqual derives from a resolved UDP/TCP address equals canonicalAddr(ParseAddr(address)), "
+                  "on the values the REAL functions return for every `cand canon` line (C16_envLaw_iff_monitor ties the monitor to the law). "
+                  "Transitivity is in the title of the property (`lawful`), not in its statement; it is proved and monitored (`cand eq3`). pion/stun TLV framing/padding is exercised (message written and decoded) but "
                   "not modelled. Non-ASCII / invalid UTF-8 input is covered by the differential stream; the model decodes runes exactly where the Go "
                   "code looks at runes. PARTIAL: C16_parse_idempotent_partial needs the hypothesis Repr (witness theorems show the full statement is "
                   "false for the code: known findings C16-N3); round trip excludes an extension named `raddr` printed first without related address "
@@ -27,12 +35,21 @@ CFG = {
             "candidates (1 in 4 outside the domain), address-classifier and CRC samples, a hand-written boundary corpus of texts, "
             "grammar-generated texts, 1-3 byte/token mutations of valid texts and raw byte strings (quick 20k/10k/40k/6k, thorough "
             "1.2M/600k/2.5M/400k). candeq: all type x transport x address x TCP type x extension-list combinations against themselves and their "
-            "parsed copies, 22x22 extension multisets through the parser, one-field variations, random pairs (quick 15k, thorough 900k). attr: "
+            "parsed copies, 22x22 extension multisets through the parser, one-field variations, a table of 37 address families (105 literals: "
+            "plain v4 / v4-mapped in dotted, hex, expanded, upper-case and zoned form / IPv4-compatible / expanded, compressed, upper-case v6 / "
+            "link-local unicast and multicast with the same, another, an upper-cased or no zone / site-local and global with a zone / mDNS names "
+            "differing in case / IP literals whose zone ends in .local) all-against-all with equal, permuted and different extension lists, built "
+            "against parsed, related addresses in two literal forms; transitivity triples (inside a family, two members + a near miss, "
+            "cross-type, the chain literal ~ literal%x.local ~ literal%y.local; random chains quick 6k, thorough 300k); random pairs (quick 15k, "
+            "thorough 900k). cand also: round trip of every listed literal on every type x udp/tcp, `cand canon` on every sampled address string "
+            "incl. randomly re-spelt valid literals (case, leading zeros, any zero run compressed, dotted tail, zone). attr: "
             "boundary values of every width, every value length 0..24 x 10 contents per kind, random (quick 10k+10k, thorough 1M+1M). Distinct = "
             "distinct (operation, output) lines; non-trivial = output is not an error/skip line.",
     "translated": [],
-    "trusted_base": ["netip.ParseAddr / Unmap().Is4() and crc32.ChecksumIEEE are uninterpreted functions in all theorems; executable mirrors "
-                     "(lean/Driver/NetMirror.lean) are validated by sampling only",
+    "trusted_base": ["netip.ParseAddr / Unmap().Is4(), canonicalAddr(netip.ParseAddr(s)) and crc32.ChecksumIEEE are uninterpreted functions in all "
+                     "theorems; executable mirrors (lean/Driver/NetMirror.lean) are validated by sampling only",
+                     "the IP that addrEqual compares for a candidate's resolved address is modelled as canonicalAddr(ParseAddr(Address())); "
+                     "checked per sampled string by the `cand canon` assumption monitor and by every eq/eq3 line",
                      "pion/stun message framing (Add/Get/Decode) is used as is by the harness, not modelled",
                      "strings.ToLower is mirrored for ASCII plus U+0130 (the only rune besides U+212A that lowers into ASCII)"],
     "assumptions": ["candidates are observed as the constructors / UnmarshalCandidate / AddExtension leave them (no agent attached: TCP "
